@@ -226,6 +226,11 @@ hwloc_shmem_topology_adopt(hwloc_topology_t *topologyp,
   memcpy(new->support.cpubind, old->support.cpubind, sizeof(*new->support.cpubind));
   memcpy(new->support.membind, old->support.membind, sizeof(*new->support.membind));
   memcpy(new->support.misc, old->support.misc, sizeof(*new->support.misc));
+  /* duplicate the allowed sets so that hwloc_topology_allow() does not write in the read-only mapping */
+  new->allowed_cpuset = hwloc_bitmap_dup(old->allowed_cpuset);
+  new->allowed_nodeset = hwloc_bitmap_dup(old->allowed_nodeset);
+  if (!new->allowed_cpuset || !new->allowed_nodeset)
+    goto out_with_allowed;
   hwloc_set_binding_hooks(new);
   /* clear userdata callbacks pointing to the writer process' functions */
   new->userdata_export_cb = NULL;
@@ -244,6 +249,9 @@ hwloc_shmem_topology_adopt(hwloc_topology_t *topologyp,
   *topologyp = new;
   return 0;
 
+ out_with_allowed:
+  hwloc_bitmap_free(new->allowed_cpuset);
+  hwloc_bitmap_free(new->allowed_nodeset);
  out_with_support:
   free(new->support.discovery);
   free(new->support.cpubind);
@@ -262,6 +270,8 @@ hwloc__topology_disadopt(hwloc_topology_t topology)
 {
   hwloc_components_fini();
   hwloc__free_infos(&topology->infos);
+  hwloc_bitmap_free(topology->allowed_cpuset);
+  hwloc_bitmap_free(topology->allowed_nodeset);
   munmap(topology->adopted_shmem_addr, topology->adopted_shmem_length);
   free(topology->support.discovery);
   free(topology->support.cpubind);
